@@ -14,6 +14,7 @@ import Dawn.Model.Build
     temps <n>                                          → ok                            (n stray entries dropped into temp)
     path <kind hex> <pkg hex> <name hex>               → <dir hex> <file hex>      (targetInfoPath)
     sum <d n:c,…> <d n:c,…>                            → eq | ne                    (dirSum: equal sums?)
+    key <c<cp>|r|b<byte>,…>                            → <code points of the JSON key> <0|1 read back unchanged>   (depStamps)
     opts <prev always> <prev dry> nil | <always> <dry>  → <always> <dry>             (RunOptions.apply)
 
   U/V/S/F: labels with a TargetUpToDate / TargetEvaluating / TargetSucceeded / TargetFailed event (sorted).
@@ -193,6 +194,17 @@ def step (s : DSt) (line : String) : DSt × String :=
   | ["opts", pa, pd, a, d] =>
     let f := applyOptions ⟨flag pa, flag pd⟩ (some ⟨flag a, flag d⟩)
     (s, s!"{if f.always then 1 else 0} {if f.dry then 1 else 0}")
+  | ["key", items] =>
+    let parsed : Option (List KeyItem) := (items.splitOn ",").mapM fun it =>
+      if it == "r" then some .repl
+      else if it.startsWith "c" then (it.drop 1).toString.toNat?.map KeyItem.ch
+      else if it.startsWith "b" then (it.drop 1).toString.toNat?.map fun n => KeyItem.raw (UInt8.ofNat n)
+      else none
+    match parsed with
+    | some its =>
+      let e := escapeKey its
+      (s, s!"{",".intercalate (e.map toString)} {if unescapeKey e == its then 1 else 0}")
+    | none => (s, "bad-input")
   | ["sum", "d", a, "d", b] =>
     match parseEntries a, parseEntries b with
     | some a, some b => (s, if canon (.dir a) == canon (.dir b) then "eq" else "ne")
